@@ -214,6 +214,35 @@ def body_plus_length(kind: int, isdir: bool, nchunks: int) -> bool:
     return True
 
 
+def body_sidecars_nonreal_fallback(mask: int, umn: bool) -> bool:
+    """A file served through a VFS that is not the process-wide real file system (a ZIP): its sidecars
+    are looked up in THAT VFS.  The global fallback VFS is a different, empty tree."""
+    from pygopherd.handlers import UMN, file as filemod
+
+    cfg = dl.config({("handlers.dir.DirHandler", "cachetime"): 0})
+    nodes, want = _sidecar_nodes(mask, "first", "second", True, False)
+    zipvfs = mv.MemVFS(cfg, nodes, real=False, writable=False)
+    empty = mv.MemVFS(cfg, {"/": mv.Dir([])})
+    dl.install_dir_env(empty, 5000, dl.PickleStub())
+    try:
+        proto = rl.proto(1, cfg)
+        if umn:
+            h = UMN.UMNDirHandler("/d", "", proto, cfg, zipvfs.stat("/d"), zipvfs)
+            h.prepare()
+            es = [e for e in h.getdirlist() if e.selector == "/d/f.txt"]
+            hx.require(len(es) == 1, "C15:entry-missing-in-archive-listing", lambda: repr([e.selector for e in h.getdirlist()]))
+            e = es[0]
+        else:
+            h = filemod.FileHandler("/d/f.txt", "", proto, cfg, zipvfs.stat("/d/f.txt"), zipvfs)
+            e = h.getentry()
+    finally:
+        dl.restore_dir_env()
+    hx.reach()
+    got = {k: v.split("\n") for k, v in e.geteadict().items()}
+    hx.require(got == want, "C15:sidecars-not-read-from-the-serving-vfs", lambda: "umn=%s sidecars expected %r got %r" % (umn, want, got))
+    return True
+
+
 def obligations(tier, seed):
     n = 2 if tier == "quick" else 3
     obs = [
@@ -233,6 +262,12 @@ def obligations(tier, seed):
                       timeout=300 if tier == "quick" else 1200,
                       desc="getallblocks: +INFO, +ADMIN, +VIEWS (MIME type, language, size in k) then one block per attribute in insertion order, lines blank-prefixed",
                       bounds="attribute subset %d, texts |a| <= %d over {a SPACE + : LF}, any size" % (mask, n), functions=["GopherPlusProtocol.getallblocks/getblock/getadminblock/getviewsblock"]))
+    obs.append(Ob(id="C15.3b-sidecars-in-archive", body="harness.C15:body_sidecars_nonreal_fallback", sig="mask: int, umn: bool", pre=["0 <= mask <= 15"], timeout=300,
+                  desc="file inside a non-real VFS (ZIP-like) while the process-wide file system is a different tree: the entry's attribute blocks come from the sidecars inside that VFS",
+                  bounds="16 sidecar subsets x item / directory listing (symbolic)", functions=["handlers.file.FileHandler.getentry", "GopherEntry.populatefromfs/handleeaext"]))
+    obs.append(Ob(id="C15.4b-size-truth", body="harness.C04:body_size", sig="i: int", pre=["0 <= i < 15"], timeout=120,
+                  desc="the size the + header shows is, for every document handler, unknown or the number of bytes written (shared with C04.3)",
+                  bounds="15 (handler, fixture) pairs on the real testdata", functions=["handlers.*.getentry/write"]))
     for form in (0, 1):
         for real in (True, False):
             for mask in ((1, 15) if tier == "quick" else range(16)):
